@@ -13,7 +13,10 @@ LAYOUTS = {
     'signing+encryption': (('idpA', 'signing'), ('idpAenc', 'encryption')),
     'useless': (('idpA', None),),
     'expired-signing': (('idpAexp', 'signing'),),
+    'encryption-then-useless': (('idpAenc', 'encryption'), ('idpA', None)),
+    'useless-then-encryption': (('idpA', None), ('idpAenc', 'encryption')),
     'none': (),
+    'empty-store': 'EMPTY',
 }
 ISSUERS = {'A': IDP_A, 'B': IDP_B, 'unknown': 'urn:vp:nobody', 'absent': None}
 KEYS = ('idpA', 'idpA2', 'idpAenc', 'idpB', 'mallory', 'idpAexp')
@@ -25,7 +28,10 @@ def sp_for(layout, only):
     k = (layout, only)
     if k not in _sp:
         top = {} if only is None else {'only_use_keys_in_metadata': only}
-        md = [world.idp_md(IDP_A, keys=LAYOUTS[layout]), world.idp_md(IDP_B, keys=(('idpB', 'signing'),), sso=(('https://idpb.example/sso', world.BINDING_HTTP_REDIRECT),), slo=())]
+        if LAYOUTS[layout] == 'EMPTY':
+            md = []           # an SP whose metadata store has no source at all
+        else:
+            md = [world.idp_md(IDP_A, keys=LAYOUTS[layout]), world.idp_md(IDP_B, keys=(('idpB', 'signing'),), sso=(('https://idpb.example/sso', world.BINDING_HTTP_REDIRECT),), slo=())]
         _sp[k] = world.make_sp(TMP[0], md, top=top, want_response_signed=False)
     return _sp[k]
 
@@ -58,6 +64,8 @@ def keyinfo_spec(ki, key):
 
 
 def metadata_keys(layout, issuer):
+    if LAYOUTS[layout] == 'EMPTY':
+        return []
     if issuer == 'A':
         return [n for n, use in LAYOUTS[layout] if use in ('signing', None)]
     if issuer == 'B':
